@@ -315,3 +315,51 @@ func missing(name string, args []interface{}) ([]interface{}, error) {
 	}
 	return []interface{}{name, args}, nil
 }
+
+// ---- proxies whose names come from their shape (no name tags): the members of the "am" service (AddAllMethods of a
+// *Calc: Add, Name, the function field Neg and the nested Sub.Sum) reached through nested, embedded and pointed-to
+// structs. The proxy builder derives "Am_Add", "am_Sub_Sum" ... from the path of field names.
+
+type amBase struct {
+	Add  func(a, b int) (int, error)
+	Name func() (string, error)
+	Neg  func(x int) (int, error)
+}
+type amSub struct {
+	Sum func(n ...int) (int, error)
+}
+type AmBase = amBase // embedded under an exported name
+
+// nested: the namespace is a field name
+type proxyNested struct {
+	Am struct {
+		Add  func(a, b int) (int, error)
+		Name func() (string, error)
+		Neg  func(x int) (int, error)
+		Sub  amSub
+	}
+}
+
+// embedded at the top, namespace through UseService
+type proxyEmbedded struct {
+	AmBase
+	Sub amSub
+}
+
+// embedded inside a nested struct, the nested member behind a pointer
+type proxyEmbeddedInNested struct {
+	Am struct {
+		AmBase
+		Sub *amSub
+	}
+}
+
+// the whole group behind a pointer
+type proxyPointerNested struct {
+	Am *struct {
+		Add  func(a, b int) (int, error)
+		Name func() (string, error)
+		Neg  func(x int) (int, error)
+		Sub  amSub
+	}
+}
